@@ -31,7 +31,10 @@ const (
 func TestMain(m *testing.M) {
 	stats.SetRule("history = 6-26 operations on the group chain of a FRESH booted node: add (valid: PreGroup = last id, Parent = a listed group, fresh id; " +
 		"re-add of a removed group whose links fit; invalid: wrong predecessor, unknown parent, duplicate id, nil), remove-last (the fork switch's remove), " +
-		"remove-last + add of a different group at the same height, clean restart, crash at the n-th store write inside an add / a remove followed by restart. " +
+		"remove-last + add of a different group at the same height, the node's own fork-switch rollback (removeFromCommonAncestor to an ancestor 0-4 groups below the tip, " +
+		"then 0-3 adds of a different branch), a whole group fork switch (groupChainFork: receive a generated branch, verify on fork, triggerOnChain, destroy; branch valid / " +
+		"with a parent among the rolled-back groups / with a broken predecessor link), clean restart, crash at the n-th store write inside an add / a remove / a rollback / a " +
+		"fork switch followed by restart (a multi-step operation must leave one of its sequential intermediate chains). " +
 		"After every operation the whole observable state (LastGroup, Count, predecessor walk, Iterator, height index up to count+3, by-id lookups of listed and " +
 		"removed groups, GetSyncGroupsById / GetSyncGroupsByHeight) is compared with a model slice. non-trivial = history with >=1 remove followed later by an " +
 		"add of a different group; distinct by the operation trace. Second family 'two concurrent group-chain operations': AddGroup(X) (valid next / parent = last / " +
@@ -58,7 +61,11 @@ type mgroup struct {
 	create  uint64
 	members [][]byte
 	pubkey  []byte
+	cbh     []byte // CreateBlockHash: must name a block the node has (the fork path looks it up)
 }
+
+// createBlockHash is the hash of the genesis block of the booted node (the same in every boot).
+var createBlockHash = []byte{1, 2, 3}
 
 type model struct {
 	list    []*mgroup       // genesis first
@@ -146,6 +153,7 @@ func newGroup(seq int, pre, parent []byte) *mgroup {
 		create:  uint64(10 + seq),
 		members: [][]byte{{byte(seq), 1}, {byte(seq), 2}, {byte(seq), 3}},
 		pubkey:  []byte{0xaa, byte(seq)},
+		cbh:     append([]byte(nil), createBlockHash...),
 	}
 	hdr := g.header()
 	g.hash = hdr.GenHash()
@@ -158,7 +166,7 @@ func (g *mgroup) header() *types.GroupHeader {
 	return &types.GroupHeader{
 		Parent:          append([]byte(nil), g.parent...),
 		PreGroup:        append([]byte(nil), g.pre...),
-		CreateBlockHash: []byte{1, 2, 3},
+		CreateBlockHash: append([]byte(nil), g.cbh...),
 		BeginTime:       time.Date(2024, 5, 1, 0, 0, 0, 0, time.UTC),
 		CreateHeight:    g.create,
 		ReadyHeight:     g.create + 5,
@@ -393,6 +401,9 @@ func startNode(fatalf func(string, ...interface{})) (*boot.Node, *model) {
 		fatalf("VERIF-INCONCLUSIVE boot: %v", err)
 	}
 	gc := boot.Groups()
+	if top := boot.Chain().TopBlock(); top != nil {
+		createBlockHash = top.Hash.Bytes()
+	}
 	m := &model{dirty: map[uint64]bool{}}
 	cnt := gc.Count()
 	if cnt < 1 || cnt > 4 {
@@ -428,7 +439,7 @@ func doRemove() (ok bool, p interface{}) {
 func TestGroupChainHistories(t *testing.T) {
 	knownA := stats.IsKnown(findingA)
 	knownB := stats.IsKnown(findingB)
-	stats.Check(t, 14, 300, func(t *rapid.T) {
+	stats.Check(t, 18, 300, func(t *rapid.T) {
 		n, m := startNode(t.Fatalf)
 		failedBoot := false
 		defer func() {
@@ -454,6 +465,7 @@ func TestGroupChainHistories(t *testing.T) {
 		removes, readds, diffAdds, invalids, restarts, crashesInside, crashesEdge, excludedB := 0, 0, 0, 0, 0, 0, 0, 0
 		removedSomething := false
 		nontrivial := false
+		forkDirty := false
 
 		pickListed := func(label string) *mgroup {
 			return m.list[rapid.IntRange(0, len(m.list)-1).Draw(t, label)]
@@ -521,12 +533,176 @@ func TestGroupChainHistories(t *testing.T) {
 			restarts++
 		}
 
+		// ---- the node's own fork-switch rollback and the whole group fork switch
+		depthClass := func(k int) string {
+			if k >= 3 {
+				return "3plus"
+			}
+			return fmt.Sprint(k)
+		}
+		pickDepth := func(atLeastOne bool) int {
+			maxk := len(m.list) - 1 // the ancestor may be the genesis group
+			if maxk > 4 {
+				maxk = 4
+			}
+			lo := 0
+			if atLeastOne && maxk >= 1 {
+				lo = 1
+			}
+			return rapid.IntRange(lo, maxk).Draw(t, "rollbackDepth")
+		}
+		ancestorOnChain := func(aIdx int) *types.Group {
+			// the fork switch takes the common ancestor from the local chain (getFirstGroupBelowHeight)
+			var g *types.Group
+			if p := safely(func() { g = boot.Groups().GetGroupById(m.list[aIdx].id) }); p != nil || g == nil {
+				fail("common ancestor %s (height %d) is not retrievable by id (panic: %v)", m.list[aIdx].name, aIdx, p)
+			}
+			return g
+		}
+		// buildBranch: nb groups linked on top of the ancestor, as a peer on another fork would send them
+		buildBranch := func(aIdx, k, nb int, kind string) (branch []*mgroup, verified int) {
+			pre := m.list[aIdx].id
+			bad := -1
+			if kind != "valid" && nb > 0 {
+				bad = rapid.IntRange(0, nb-1).Draw(t, "badIdx")
+			}
+			verified = nb
+			for i := 0; i < nb; i++ {
+				seq++
+				parent := m.list[0].id
+				switch rapid.IntRange(0, 2).Draw(t, "branchParent") {
+				case 1:
+					parent = m.list[aIdx].id
+				case 2:
+					if i > 0 {
+						parent = branch[i-1].id
+					}
+				}
+				p := pre
+				if i == bad {
+					if kind == "parentRolledBack" {
+						parent = m.list[aIdx+1+rapid.IntRange(0, k-1).Draw(t, "rolledBackParent")].id
+					} else {
+						p = []byte{0xde, 0xad, byte(seq)}
+						verified = i
+					}
+				}
+				g := newGroup(seq, p, parent)
+				g.name = "f" + g.name[1:]
+				branch = append(branch, g)
+				pre = g.id
+			}
+			return
+		}
+		// planSwitch: the chain after each sequential step of "roll back k groups, add the branch
+		// until the first group that does not fit"
+		planSwitch := func(k int, branch []*mgroup) (cands []*model, added int) {
+			c := m.clone()
+			cands = append(cands, c.clone())
+			for j := 0; j < k; j++ {
+				c.removeLast()
+				cands = append(cands, c.clone())
+			}
+			for _, g := range branch {
+				if c.listed(g.id) || !c.listed(g.parent) || !bytes.Equal(g.pre, c.last().id) {
+					break
+				}
+				c.add(g)
+				added++
+				cands = append(cands, c.clone())
+			}
+			for _, cand := range cands {
+				for _, g := range branch {
+					if !cand.listed(g.id) {
+						cand.dropAbsent(g.id)
+						cand.absent = append(cand.absent, g)
+					}
+				}
+			}
+			return
+		}
+		branchWires := func(aIdx int, branch []*mgroup) []*types.Group {
+			var ws []*types.Group
+			for i, g := range branch {
+				w := g.wire()
+				w.GroupHeight = uint64(aIdx + 1 + i) // as recorded by the sending peer
+				ws = append(ws, w)
+			}
+			return ws
+		}
+		adopt := func(next *model, k, added int) {
+			m = next
+			if k > 0 {
+				removes += k
+				removedSomething = true
+			}
+			if added > 0 && removedSomething {
+				nontrivial = true
+			}
+		}
+		drawSwitch := func(atLeastOne bool) (k, aIdx int, kind string, branch []*mgroup, verified int) {
+			k = pickDepth(atLeastOne)
+			aIdx = len(m.list) - 1 - k
+			nb := rapid.IntRange(0, 3).Draw(t, "branchLen")
+			kind = rapid.SampledFrom([]string{"valid", "valid", "valid", "valid", "valid", "parentRolledBack", "brokenLink"}).Draw(t, "branchKind")
+			if nb == 0 || (kind == "parentRolledBack" && k == 0) {
+				kind = "valid"
+			}
+			branch, verified = buildBranch(aIdx, k, nb, kind)
+			return
+		}
+		// afterCrash: the restarted store must be one of the sequential intermediate chains
+		afterCrash := func(where, what string, cands []*model, nth, total, dropped int64, k int) {
+			var errs []string
+			matched := -1
+			for i, c := range cands {
+				e := checkState(c, where, knownA)
+				if e == nil {
+					matched = i
+					break
+				}
+				errs = append(errs, fmt.Sprintf("vs step %d [%s]: %v", i, c.names(), e))
+			}
+			last := len(cands) - 1
+			switch {
+			case matched < 0:
+				fail("crash at write %d of the %d writes of %s, then restart: the store equals none of the %d chains the operation passes through\n  %s",
+					nth, total, what, len(cands), strings.Join(errs, "\n  "))
+			case dropped == 0 && matched != last:
+				fail("all %d writes of %s reached the store, yet after the restart the chain is [%s], not the operation's result [%s]", total, what, cands[matched].names(), cands[last].names())
+			case dropped == total && matched != 0 && cands[matched].names() != cands[0].names():
+				fail("no write of %s reached the store, yet after the restart the chain is [%s], not [%s]", what, cands[matched].names(), cands[0].names())
+			}
+			switch {
+			case matched == 0 && last > 0:
+				stats.Class("crash_multi_left_initial_chain")
+			case matched == last:
+				stats.Class("crash_multi_left_final_chain")
+			case matched < k:
+				stats.Class("crash_multi_left_partial_rollback")
+			case matched == k:
+				stats.Class("crash_multi_left_full_rollback_no_adds")
+			default:
+				stats.Class("crash_multi_left_partial_branch")
+			}
+			added := 0
+			if matched > k {
+				added = matched - k
+			}
+			rolled := matched
+			if rolled > k {
+				rolled = k
+			}
+			adopt(cands[matched], rolled, added)
+		}
+
 		steps := rapid.IntRange(6, 26).Draw(t, "steps")
 		for step := 0; step < steps; step++ {
 			canRemove := len(m.list) > m.genesis
 			action := rapid.SampledFrom([]string{
 				"add", "add", "add", "add", "readd", "invalid", "invalid",
 				"remove", "remove", "replace", "replace", "restart", "crashAdd", "crashRemove",
+				"rollback", "rollback", "forkSwitch", "forkSwitch", "forkSwitch", "crashRollback", "crashForkSwitch",
 			}).Draw(t, "action")
 			if !canRemove && (action == "remove" || action == "replace" || action == "crashRemove") {
 				action = "add"
@@ -551,6 +727,96 @@ func TestGroupChainHistories(t *testing.T) {
 			case "remove":
 				removeLast()
 				check(where)
+			case "rollback":
+				k := pickDepth(false)
+				aIdx := len(m.list) - 1 - k
+				anc := ancestorOnChain(aIdx)
+				p := safely(func() { core.VerifGroupChainRollbackTo(anc) })
+				trace = append(trace, fmt.Sprintf("rollback to %s (%d groups)", m.list[aIdx].name, k))
+				if p != nil {
+					fail("removeFromCommonAncestor(%s) panicked: %v", m.list[aIdx].name, p)
+				}
+				cands, _ := planSwitch(k, nil)
+				adopt(cands[k], k, 0)
+				stats.Class("rollback_depth_" + depthClass(k))
+				check(where)
+				for i, nb := 0, rapid.IntRange(0, 3).Draw(t, "branchLen"); i < nb; i++ {
+					addValid(freshValid(), "add-different")
+					if k > 0 && i == 0 {
+						diffAdds++
+					}
+					check(where + " branch add")
+				}
+			case "forkSwitch":
+				k, aIdx, kind, branch, _ := drawSwitch(false)
+				anc := ancestorOnChain(aIdx)
+				cands, added := planSwitch(k, branch)
+				var forkErr error
+				var onChain bool
+				p := safely(func() { forkErr, onChain = core.VerifGroupForkSwitch(anc, branchWires(aIdx, branch)) })
+				trace = append(trace, fmt.Sprintf("forkSwitch at %s (roll back %d, branch %d %s) -> forkErr=%v onChain=%v", m.list[aIdx].name, k, len(branch), kind, forkErr, onChain))
+				if p != nil {
+					fail("group fork switch at %s panicked: %v", m.list[aIdx].name, p)
+				}
+				adopt(cands[len(cands)-1], k, added)
+				forkDirty = false
+				if k > 0 && added > 0 {
+					diffAdds++
+				}
+				stats.Class("forkswitch_depth_" + depthClass(k))
+				stats.Class(fmt.Sprintf("forkswitch_branch_%d_added_%d", len(branch), added))
+				stats.Class("forkswitch_kind_" + kind)
+				check(where)
+			case "crashRollback", "crashForkSwitch":
+				var k, aIdx, verified int
+				kind := "valid"
+				var branch []*mgroup
+				if action == "crashRollback" {
+					k = pickDepth(true)
+					aIdx = len(m.list) - 1 - k
+				} else {
+					k, aIdx, kind, branch, verified = drawSwitch(true)
+				}
+				anc := ancestorOnChain(aIdx)
+				cands, added := planSwitch(k, branch)
+				var nth int64
+				if action == "crashRollback" {
+					nth = int64(rapid.IntRange(1, k+1).Draw(t, "crashAtWrite"))
+				} else {
+					// writes before the first group-chain batch: fork database reset (about 4) and one
+					// 3-write insert for the ancestor and every verified branch group
+					setup := 4 + 3*(1+verified)
+					if forkDirty { // an interrupted switch left fork-database entries that the next reset deletes first
+						setup += rapid.IntRange(0, 8).Draw(t, "resetSlack")
+					}
+					if rapid.IntRange(0, 3).Draw(t, "anywhere") == 0 {
+						nth = int64(rapid.IntRange(1, setup+k+added+8).Draw(t, "crashAtWrite"))
+					} else {
+						nth = int64(setup + rapid.IntRange(1, k+added+1).Draw(t, "crashAtBatch"))
+					}
+				}
+				what := fmt.Sprintf("the rollback of %d groups to %s", k, m.list[aIdx].name)
+				if action == "crashForkSwitch" {
+					what = fmt.Sprintf("the fork switch at %s (roll back %d, branch %d %s)", m.list[aIdx].name, k, len(branch), kind)
+				}
+				w0 := db.VerifWriteCount()
+				db.VerifArmCrash(nth)
+				safely(func() { // the process is dead from the crash point on: results are void
+					if action == "crashRollback" {
+						core.VerifGroupChainRollbackTo(anc)
+					} else {
+						core.VerifGroupForkSwitch(anc, branchWires(aIdx, branch))
+					}
+				})
+				dropped := db.VerifDisarm()
+				total := db.VerifWriteCount() - w0
+				trace = append(trace, fmt.Sprintf("%s: %s crash@%d (writes %d, dropped %d)", action, what, nth, total, dropped))
+				restart(fmt.Sprintf("after a crash at write %d of %d of %s", nth, total, what))
+				stats.Class(action + "_depth_" + depthClass(k))
+				if action == "crashForkSwitch" {
+					forkDirty = dropped > 0
+				}
+				afterCrash(where, what, cands, nth, total, dropped, k)
 			case "replace":
 				old := m.last()
 				removeLast()
@@ -747,13 +1013,17 @@ func min(a, b int) int {
 // ---------------------------------------------------------------- two concurrent operations
 
 type cop struct {
-	kind string // "add" | "remove"
+	kind string // "add" | "remove" | "rollback" (the fork switch's rollback of k groups, one step: it holds the chain lock)
 	g    *mgroup
+	k    int
 }
 
 func (o cop) String() string {
-	if o.kind == "remove" {
+	switch o.kind {
+	case "remove":
 		return "remove-last"
+	case "rollback":
+		return fmt.Sprintf("rollback-%d", o.k)
 	}
 	return "add " + o.g.name
 }
@@ -781,6 +1051,12 @@ func simulate(m *model, ops []cop) (*model, []bool) {
 				c.removeLast()
 			}
 			res = append(res, ok)
+		case "rollback":
+			// the ancestor is fixed when the operation starts: everything above it goes
+			for len(c.list) > o.k && len(c.list) > c.genesis {
+				c.removeLast()
+			}
+			res = append(res, true)
 		}
 	}
 	return c, res
@@ -851,6 +1127,9 @@ func runPair(x *mgroup, yops []cop) (parked bool, xr addRes, yres []bool, yPanic
 			for _, o := range yops {
 				if o.kind == "remove" {
 					yr = append(yr, core.VerifGroupChainRemoveLast())
+				} else if o.kind == "rollback" {
+					core.VerifGroupChainRollbackTo(boot.Groups().GetGroupByHeight(uint64(o.k - 1)))
+					yr = append(yr, true)
 				} else {
 					yr = append(yr, boot.Groups().AddGroup(o.g.wire()) == nil)
 				}
@@ -877,7 +1156,7 @@ func runPair(x *mgroup, yops []cop) (parked bool, xr addRes, yres []bool, yPanic
 }
 
 func TestConcurrentPairs(t *testing.T) {
-	stats.Check(t, 8, 150, func(t *rapid.T) {
+	stats.Check(t, 10, 150, func(t *rapid.T) {
 		n, m := startNode(t.Fatalf)
 		failedBoot := false
 		defer func() {
@@ -922,6 +1201,9 @@ func TestConcurrentPairs(t *testing.T) {
 			if n0 > m.genesis {
 				yKinds = append(yKinds, "removeLast", "removeLast", "replace", "replace")
 			}
+			if n0 >= 3 {
+				yKinds = append(yKinds, "rollback2", "rollback2")
+			}
 			xKind := rapid.SampledFrom(xKinds).Draw(t, "xKind")
 			yKind := rapid.SampledFrom(yKinds).Draw(t, "yKind")
 			last := m.last()
@@ -944,15 +1226,18 @@ func TestConcurrentPairs(t *testing.T) {
 			var yops []cop
 			switch yKind {
 			case "addSibling":
-				yops = []cop{{"add", fresh(last.id, m.list[0].id)}}
+				yops = []cop{{kind: "add", g: fresh(last.id, m.list[0].id)}}
 			case "addSame":
-				yops = []cop{{"add", x}}
+				yops = []cop{{kind: "add", g: x}}
 			case "addOnTopOfX":
-				yops = []cop{{"add", fresh(x.id, m.list[0].id)}}
+				yops = []cop{{kind: "add", g: fresh(x.id, m.list[0].id)}}
 			case "removeLast":
-				yops = []cop{{"remove", nil}}
+				yops = []cop{{kind: "remove"}}
 			case "replace":
-				yops = []cop{{"remove", nil}, {"add", fresh(m.list[n0-2].id, m.list[0].id)}}
+				yops = []cop{{kind: "remove"}, {kind: "add", g: fresh(m.list[n0-2].id, m.list[0].id)}}
+			case "rollback2":
+				// k = number of groups that stay: the ancestor is the group at height n0-3
+				yops = []cop{{kind: "rollback", k: n0 - 2}}
 			}
 			desc := fmt.Sprintf("len%d X=%s(valid alone %v) || Y=%s", n0, xKind, validAlone, yKind)
 			parked, xr, yres, yPanic, stuck := runPair(x, yops)
@@ -974,7 +1259,7 @@ func TestConcurrentPairs(t *testing.T) {
 			for p := 0; p <= len(yops); p++ {
 				var ops []cop
 				ops = append(ops, yops[:p]...)
-				ops = append(ops, cop{"add", x})
+				ops = append(ops, cop{kind: "add", g: x})
 				ops = append(ops, yops[p:]...)
 				fm, res := simulate(m, ops)
 				wantX := res[p]
